@@ -201,6 +201,7 @@ func userVal(k uint8) string { return "" }
 //@   ensures[others] old(d.Options) != nil ==> optsSameExcept(d.Options, 55)
 
 //@ define defaultsOnly(err, modifiers) = err == nil && len(modifiers) == 0
+//@ define zeroAddr(ip) = ip == net.IPv4zero
 //@ define modsOK(modifiers) = len(modifiers) <= 1 && (forall i int :: {modifiers[i]} 0 <= i && i < len(modifiers) ==> modifiers[i] != nil)
 //@ define replyOf(result, p) = ((int(p.OpCode) == 1 ==> int(result.OpCode) == 2) && (int(p.OpCode) != 1 ==> int(result.OpCode) == 1)) && string(result.TransactionID[:]) == string(p.TransactionID[:]) && result.HWType == p.HWType && result.ClientHWAddr == p.ClientHWAddr && result.Flags == p.Flags
 //@ define msgType(result, t) = has(result.Options, 53) && len(result.Options[53]) == 1 && int(result.Options[53][0]) == t
@@ -214,6 +215,7 @@ func userVal(k uint8) string { return "" }
 //@   ensures[new] err == nil ==> result != nil && fresh(result)
 //@   ensures[correlation] defaultsOnly(err, modifiers) ==> replyOf(result, offer) && result.ClientIPAddr == offer.ClientIPAddr
 //@   ensures[type] defaultsOnly(err, modifiers) ==> msgType(result, 3)
+//@   ensures[other-addresses] defaultsOnly(err, modifiers) ==> zeroAddr(result.YourIPAddr) && zeroAddr(result.ServerIPAddr) && zeroAddr(result.GatewayIPAddr)
 //@   ensures[requested-address] defaultsOnly(err, modifiers) && len(offer.YourIPAddr) == 4 ==> has(result.Options, 50) && string(result.Options[50]) == string(offer.YourIPAddr)
 //@   ensures[server-id] defaultsOnly(err, modifiers) ==> (offer.Options[54] != nil ==> has(result.Options, 54) && result.Options[54] == offer.Options[54]) && (offer.Options[54] == nil ==> !has(result.Options, 54))
 //@   ensures[prl] defaultsOnly(err, modifiers) ==> has(result.Options, 55)
@@ -229,6 +231,7 @@ func userVal(k uint8) string { return "" }
 //@   ensures[new] err == nil ==> result != nil && fresh(result)
 //@   ensures[correlation] defaultsOnly(err, modifiers) ==> ((int(ack.OpCode) == 1 ==> int(result.OpCode) == 2) && (int(ack.OpCode) != 1 ==> int(result.OpCode) == 1)) && string(result.TransactionID[:]) == string(ack.TransactionID[:]) && result.HWType == ack.HWType && result.ClientHWAddr == ack.ClientHWAddr
 //@   ensures[ciaddr] defaultsOnly(err, modifiers) ==> result.ClientIPAddr == ack.YourIPAddr
+//@   ensures[other-addresses] defaultsOnly(err, modifiers) ==> zeroAddr(result.YourIPAddr) && zeroAddr(result.ServerIPAddr) && zeroAddr(result.GatewayIPAddr)
 //@   ensures[unicast] defaultsOnly(err, modifiers) ==> int(result.Flags) < 32768 && int(result.Flags) == int(ack.Flags) % 32768
 //@   ensures[type] defaultsOnly(err, modifiers) ==> msgType(result, 3)
 //@   ensures[no-50-54] defaultsOnly(err, modifiers) ==> !has(result.Options, 50) && !has(result.Options, 54) && has(result.Options, 55)
@@ -244,6 +247,7 @@ func userVal(k uint8) string { return "" }
 //@   ensures[new] err == nil ==> result != nil && fresh(result)
 //@   ensures[header] defaultsOnly(err, modifiers) ==> int(result.OpCode) == 1 && result.ClientIPAddr == ack.YourIPAddr && result.ClientHWAddr == ack.ClientHWAddr && int(result.Flags) < 32768
 //@   ensures[type] defaultsOnly(err, modifiers) ==> msgType(result, 7)
+//@   ensures[other-addresses] defaultsOnly(err, modifiers) ==> zeroAddr(result.YourIPAddr) && zeroAddr(result.ServerIPAddr) && zeroAddr(result.GatewayIPAddr)
 //@   ensures[server-id] defaultsOnly(err, modifiers) ==> (ack.Options[54] != nil ==> has(result.Options, 54) && result.Options[54] == ack.Options[54]) && (ack.Options[54] == nil ==> !has(result.Options, 54))
 //@   ensures[nothing-else] defaultsOnly(err, modifiers) ==> (forall k uint8 :: {mapdom(result.Options, k)} k != 53 && k != 54 ==> !has(result.Options, k))
 //@   ensures[ack-unchanged] unchanged(ack) && unchanged(ack.Options)
